@@ -67,7 +67,7 @@ SizeBound == out.max >= HeaderLen(K(out.blocks)) => OutLen(out.blocks) <= out.ma
 ASSUME Even => \A ms \in 12 .. 1500, k \in 1 .. 12 :
           ms >= HeaderLen(k) => MarshalLen([s \in 1 .. k |-> Budget(ms, k)]) <= ms
 \* arrival time offsets: 13 bits, monotone in the age, saturating, never wrapping
-ASSUME \A d \in 0 .. 70000 : /\ Ato(d, 0) \in 0 .. AtoOver
+ASSUME \A d \in (0 .. 8200) \cup (63900 .. 66100) \cup {131072, 2000000} : /\ Ato(d, 0) \in 0 .. AtoOver
                              /\ (Ato(d, 0) = AtoOver <=> d * 1024 >= 8190 * 1000)
                              /\ (Ato(d, 0) < AtoOver => Ato(d, 0) * 1000 <= d * 1024 /\ d * 1024 < (Ato(d, 0) + 1) * 1000)
 ASSUME Ato(0, 1) = AtoAfter /\ Ato(0, 0) = 0 /\ Ato(1000, 0) = 1024 /\ Ato(64500, 0) = AtoOver
